@@ -28,7 +28,7 @@ EXPLANATION = (
     "CPython's RecursionError, which the implementation does raise (known finding alternating-container-lines-recursion, "
     "found when the proof for a fixed nesting fuel failed). The models are tied to the source by control skeletons with "
     "constants of every modelled function, regenerated rule orders / patterns / tag lists, and token-tree correspondence "
-    "runs (inline, block, whole document). NOT proved: plugin and directive handlers, CPython's own recursion depth. The oracle runs real conversions in a separate "
+    "runs (inline, block, whole document). The inline model and its theorems also cover the six inline plugins strikethrough, mark, insert, superscript, subscript and url (registered in create_markdown's order, regenerated). NOT proved: the remaining plugin and directive handlers, CPython's own recursion depth. The oracle runs real conversions in a separate "
     "worker process (crash, hang and RecursionError isolation) over generated documents, nesting pumps up to depth 400 and "
     "hostile code points, for sampled configurations of renderer x escape x hard_wrap x plugin subset x directive style, "
     "in one long-lived process so that cross-instance state shows too.")
